@@ -24,7 +24,7 @@ REQUIRED = ["Sqfs.C19." + t for t in (
     "copy_equiv_idTable", "copy_equiv_fragTable")]
 COMPS = ["gzip", "xz", "lzma", "lz4", "zstd"]
 ENV_KINDS = ("meta", "dir", "data", "xattr")
-WRAP = "-Wl,--wrap=malloc,--wrap=calloc,--wrap=realloc"
+WRAP = "-Wl,--wrap=malloc,--wrap=calloc,--wrap=realloc,--wrap=dup,--wrap=deflateInit2_,--wrap=inflateInit_,--wrap=ZSTD_createCCtx"
 # memcpy(NULL, NULL, 0) in array_init_copy of an empty array is flagged by UBSan's nonnull-attribute check; it is
 # harmless on every libc and not what C19 is about, so that one check is off for this property's builds.
 LIBFLAGS = ["-fno-sanitize=nonnull-attribute"]
